@@ -45,7 +45,12 @@ func runFam(t *testing.T, r *vlib.Run, fam string, bias retryplan.Bias, n int) b
 		if !r.Want(fam, i) {
 			continue
 		}
-		sc := retryplan.Gen(r.Rand(fam, i), bias)
+		var sc retryplan.Scenario
+		if fam == "replay-interrupted" {
+			sc = retryplan.GenReplayInterrupted(r.Rand(fam, i), i)
+		} else {
+			sc = retryplan.Gen(r.Rand(fam, i), bias)
+		}
 		r.Progress(fam, i, fmt.Sprintf("rpcs=%d", len(sc.RPCs)))
 		obs, ok := retryplan.RunGuarded(t, &sc, 3*time.Minute)
 		if !ok {
@@ -79,11 +84,14 @@ func runFam(t *testing.T, r *vlib.Run, fam string, bias retryplan.Bias, n int) b
 
 func TestVerifC18(t *testing.T) {
 	r := vlib.Start(t, "C18")
-	_ = runFam(t, r, "mixed", retryplan.BiasMixed, r.N(3000, 40000)/light()) &&
+	// must-hit prefix (not reduced by VERIF_LIGHT): retry attempts answered while
+	// the client is still replaying buffered sends
+	_ = runFam(t, r, "replay-interrupted", retryplan.Bias{}, r.N(2*retryplan.MustHitVariants, 10*retryplan.MustHitVariants)) &&
+		runFam(t, r, "mixed", retryplan.BiasMixed, r.N(3000, 40000)/light()) &&
 		runFam(t, r, "throttled", retryplan.BiasThrottle, r.N(600, 8000)/light())
 	r.Finish(vlib.Spec{
 		Level: "exploration",
-		Rule: "per case: random retryPolicy (maxAttempts 2-7, 1-4 codes, backoff) or none, WithMaxCallAttempts unset/1-6, retryThrottling on/off, WithDisableRetry (4%), then 1-4 (family throttled: 5-14) sequential calls: unary / client-streaming / bidi (one or two application goroutines), 0-5 messages of 0-5000 bytes with think times, CloseSend or not, MaxRetryRPCBufferSize default or at/around the cumulative message sizes, deadline 1-60 s; the scripted server answers wire attempt w per plan (trailers-only(code[,pushback valid/negative/malformed/multiple]), headers-then-trailers, headers+message-then-fail, RST(REFUSED/CANCEL/INTERNAL/ENHANCE_YOUR_CALM), GOAWAY below the id, silence, OK) after HEADERS / after the k-th message / after END_STREAM; " +
+		Rule: "family replay-interrupted (fixed prefix, 40 variants x shapes/final answers, repeated): retryPolicy{UNAVAILABLE}, attempt 1 failed trailers-only UNAVAILABLE after the whole request, retry attempt(s) answered on HEADERS (non-retryable code / UNAVAILABLE at maxAttempts / headers+messages+OK / RST / headers+message+failure) while the replay of a >64 KiB first message plus 1-2 more sends blocks on a 16-byte stream window; other families per case: random retryPolicy (maxAttempts 2-7, 1-4 codes, backoff) or none, WithMaxCallAttempts unset/1-6, retryThrottling on/off, WithDisableRetry (4%), then 1-4 (family throttled: 5-14) sequential calls: unary / client-streaming / bidi (one or two application goroutines), 0-5 messages of 0-5000 bytes with think times, CloseSend or not, MaxRetryRPCBufferSize default or at/around the cumulative message sizes, deadline 1-60 s; the scripted server answers wire attempt w per plan (trailers-only(code[,pushback valid/negative/malformed/multiple]), headers-then-trailers, headers+message-then-fail, RST(REFUSED/CANCEL/INTERNAL/ENHANCE_YOUR_CALM), GOAWAY below the id, silence, OK) after HEADERS / after the k-th message / after END_STREAM; " +
 			"oracles: every received message equals the application's message at that position, END_STREAM only after the whole history, a live attempt at quiescence holds exactly the completed sends; grpc-previous-rpc-attempts == non-transparent attempts before; A6 reference decides retry must/must-not/may for every attempt (committed, headers seen, code, pushback, throttle interval, maxAttempts=min(policy,cap), transparent once for the first unprocessed wire attempt) and the allowed final status / delivered messages; non-trivial = a call with >=1 retry decision; distinct = (shape, buffer, throttle, sequence of (server action, code, decision reason))",
 		Assumptions: []string{
 			"the scripted server executes its plan faithfully (harness code); its frame log is the record",
